@@ -171,6 +171,9 @@ def structural(program, w, res, V):
     probs = doc.closure_problems()
     if probs:
         V('qname-unresolved', probs[0].split(':')[0][:40], 'QName reference does not resolve: %s (%d problems)' % (probs[0], len(probs)))
+    dups = doc.duplicate_problems()
+    if dups:
+        V('definition-not-unique', dups[0].split(' ')[0], 'a reference no longer resolves to exactly one definition: %s (%d problems)' % (dups[0], len(dups)))
     ops = doc.operations()
     bops = doc.binding_operations()
     want = expected_ops(program)
